@@ -499,7 +499,9 @@ def midi_ticks_to_seconds(
         will be a numpy array with dtype float.
     """
 
-    time_in_seconds = (mpq * midi_ticks) / float(1e6 * ppq)
+    # multiply in floating point: an integer product overflows silently for
+    # int32 tick arrays (e.g. the tick columns of a performance note array)
+    time_in_seconds = (float(mpq) * midi_ticks) / float(1e6 * ppq)
 
     return time_in_seconds
 
